@@ -22,17 +22,91 @@ TRUST = (
     " PyTorch reference-op semantics as documented. Numerical equality on concrete tensors is not decided."
 )
 
-IMPLEMENTED = {
-    "C03": entry(
-        "C03",
-        "Static, all sizes per rank: every forward/backward scale expression of linear, linear_readout, matmul, conv1d, add,"
-        " embedding, dropout, mse_loss, layer_norm, rms_norm is extracted from functional.py by symbolic constant propagation"
-        " under rank-concrete/size-symbolic shape schemas and proven equal (sympy) to the 1/sqrt(#terms) oracle table.",
-        TRUST + " Term counts of the PyTorch ops are a frozen table (the dynamic all-ones measurement is not run).",
-        "abstract interpretation (symbolic constant propagation over ast, shape schemas) + computer-algebra equality with frozen oracle table",
-        "DESIGN.md §4 C03",
-    ),
-}
+AI = "abstract interpretation over ast (symbolic constant propagation with gated joins, shape schemas)"
+
+IMPLEMENTED = {}
+
+
+def _add(pid, text, note, technique, ref=None):
+    IMPLEMENTED[pid] = entry(pid, text, note, technique, ref or f"DESIGN.md §4 {pid}")
+
+
+_add(
+    "C01",
+    "Static, all sizes per rank: for each of the 16 mirrored functions x shape schema the forward value extracted from"
+    " functional.py (scale primitives -> their forward factor) divided by a frozen reference program (the PyTorch op with"
+    " the documented mult temperature) simplifies to a positive expression free of tensor symbols and op applications"
+    " (==1 for losses/norms/embedding); every scale factor is tensor-value independent (taint); no in-place effect on"
+    " an argument alias; every parameter is read or rejected; docs._validate raises for non-default unsupported args.",
+    TRUST + " Reference programs in usa/rules/c01.py state what each function mirrors. dtype/shape preservation follows from float x Tensor semantics.",
+    AI + " + taint / ownership domains + sympy ratio with uninterpreted reference ops",
+)
+_add(
+    "C02",
+    "Static: scale.py's primitives touch one pass each for any real factor (forward returns fwd_scale*X, backward saved*grad;"
+    " sibling tracing branches all save bwd_scale); in every public function x schema each differentiable operand passes"
+    " exactly one backward-only, data-independent, positive scale directly on the operand below the reference op, and no"
+    " backward factor sits above it.",
+    TRUST + " PyTorch autograd of the reference op is trusted; a scale node multiplies the gradient by its backward factor (R1).",
+    AI + " + term-path rules on scale nodes",
+)
+_add(
+    "C03",
+    "Static, all sizes per rank: every forward/backward scale expression of linear, linear_readout, matmul, conv1d, add,"
+    " embedding, dropout, mse_loss, layer_norm, rms_norm is extracted from functional.py by symbolic constant propagation"
+    " under rank-concrete/size-symbolic shape schemas and proven equal (sympy) to the 1/sqrt(#terms) oracle table.",
+    TRUST + " Term counts of the PyTorch ops are a frozen table (the dynamic all-ones measurement is not run).",
+    AI + " + computer-algebra equality with frozen oracle table",
+)
+_add(
+    "C04",
+    "ONE clause only: the cross-entropy logit-gradient scale extracted from functional.py equals V/sqrt(V-1) for symbolic V"
+    " (RMS exactly 1 for uniform logits). The tolerance bands of C04 (gelu/silu/softmax/attention/norm RMS windows) are"
+    " moments of nonlinear functions over continuous ranges and are NOT decidable by static analysis; they are not claimed.",
+    TRUST + " Only the exact clause is decided; every tolerance-band clause is explicitly out of reach of this family.",
+    AI + " + sympy equality (single exact clause)",
+)
+_add(
+    "C05",
+    "Static: apply_constraint's contract (identity for None/'', ValueError for unknown names, one value repeated), the"
+    " lookup domain (every other module-level name must be rejected), mean formulas == textbook G/H/A for arity 1..6 and"
+    " selectors; for every constrained op x rule name: forward scale == each constrained grad scale == rule(ideal scales),"
+    " weight/bias grad scales outside the group; fixed-constraint ops use one value.",
+    TRUST + " 8 known findings: module globals of constraints.py leak into the name lookup (see known_findings.json).",
+    AI + " + sympy equality; call-graph model of getattr(sys.modules[__name__], name)",
+)
+_add(
+    "C06",
+    "Static, symbolic tau: residual_split is backward-only (tau/d, 1/d) in (residual, skip) order, residual_add forward-only"
+    " with the same weights, squares sum to 1, residual_apply's dataflow term equals split -> fn(first) -> add with one tau.",
+    TRUST,
+    AI + " + term equality with closed form",
+)
+_add(
+    "C07",
+    "Static, every depth: tau(index, layers) extracted from the rule's closure at index 2k and 2k+1 (k, L, m, r symbolic)"
+    " equals the unique closed form a(i)/sqrt(S(i)) whose telescoping obligations are discharged by sympy; TransformerStack"
+    " wires (2i, 2i+1, 2*layers) in order (layers in a finite set), TransformerLayer pairs each tau with its branch"
+    " (term equality with a reference program), defaults and decoder forwarding.",
+    TRUST + " Lemma of DESIGN.md C07 (telescoping) is a paper step; stack wiring evaluated for a finite set of depths.",
+    AI + " with parity schemas + term equality with reference program",
+)
+_add(
+    "C10",
+    "Static, all sizes/depths: case enumeration (rule x tag x ndim 1..4 x depth None/symbolic) of lr_scale_func_adam /"
+    " lr_scale_func_sgd compared with the u-muP factor table; exhaustiveness and error paths; scaled_parameters stores"
+    " group-or-global lr x factor for float and tensor lr; SGD/Adam/AdamW wiring of rule and options.",
+    TRUST,
+    AI + " with case schemas + frozen factor table",
+)
+_add(
+    "C12",
+    "Static cross-file product law: out_scale(functional op under the module's default / None constraint) x Adam factor(tag"
+    " set at the module's Parameter site, ndim, depth) x fan-in count == depth^-1/2 for Linear, LinearReadout, Conv1d with"
+    " all widths/kernel/depth symbolic.",
+    TRUST + " Adam's first step with eps=0 is lr*sign(g) (assumption).",
+    AI + " across functional.py/_modules.py/optim.py + sympy identity",
+)
 
 PENDING = {}
 
